@@ -3,6 +3,7 @@ import Std.Data.String.ToNat
 /-! String facts behind C09: the names `va<i>` / `vm<j>` are pairwise distinct, the key text `[amount asset]`
 determines amount and asset, and the value text `ASSET AMOUNT` of a valid posting is read back by
 `parseValue .monetary` as exactly that monetary. -/
+set_option linter.unusedSimpArgs false
 namespace Num
 namespace Tx
 
@@ -275,6 +276,146 @@ theorem isDigitStr_eq (s : String) : isDigitStr s = (!s.toList.isEmpty && s.toLi
   congr 2
   apply Bool.eq_iff_iff.2
   rw [String.isEmpty_iff, List.isEmpty_iff, String.toList_eq_nil_iff]
+
+/-! ### values the machine refuses -/
+
+theorem validAccount_world : validAccount "world" = true := by
+  simp [validAccount, splitOnC, splitChars, String.all_bool_eq, isWordChar]
+
+theorem isDigitStr_repr (n : Nat) : isDigitStr (Nat.repr n) = true := by
+  rw [isDigitStr_eq]
+  simp only [Bool.and_eq_true, Bool.not_eq_true', List.all_eq_true]
+  refine ⟨?_, fun c h => isDigit_of_mem_repr h⟩
+  cases h : (Nat.repr n).toList with
+  | nil => exact absurd (String.toList_eq_nil_iff.1 h) Nat.repr_ne_empty
+  | cons _ _ => rfl
+
+theorem parseInt10_toString (i : Int) : parseInt10 (toString i) = some i := by
+  cases i with
+  | ofNat n => rw [toString_ofNat]; exact parseInt10_repr n
+  | negSucc n =>
+    rw [toString_negSucc]
+    unfold parseInt10
+    have : ("-" ++ Nat.repr (n + 1)).toList = '-' :: (Nat.repr (n + 1)).toList := by
+      rw [String.toList_append]; rfl
+    rw [this]
+    simp only [String.ofList_toList, isDigitStr_repr, if_true, Nat.toNat?_repr, Option.map_some]
+    rfl
+
+theorem parseInt10_none_of_space {s : String} (h : ' ' ∈ s.toList) : parseInt10 s = none := by
+  have hnd : ∀ l : List Char, ' ' ∈ l → isDigitStr (String.ofList l) = false := by
+    intro l hl
+    rw [isDigitStr_eq, String.toList_ofList]
+    have : l.all Char.isDigit = false := by
+      rw [List.all_eq_false]
+      exact ⟨' ', hl, by decide⟩
+    simp [this]
+  unfold parseInt10
+  split
+  · rename_i ds heq
+    have : ' ' ∈ ds := by
+      rw [heq] at h
+      rcases List.mem_cons.1 h with e | e
+      · exact absurd e (by decide)
+      · exact e
+    simp [hnd ds this]
+  · rename_i ds heq
+    have : ' ' ∈ ds := by
+      rw [heq] at h
+      rcases List.mem_cons.1 h with e | e
+      · exact absurd e (by decide)
+      · exact e
+    simp [hnd ds this]
+  · have := hnd s.toList h
+    rw [String.ofList_toList] at this
+    simp [this]
+
+theorem exists_first_split {c : Char} {l : List Char} (h : c ∈ l) : ∃ l1 l2, l = l1 ++ c :: l2 ∧ c ∉ l1 := by
+  induction l with
+  | nil => simp at h
+  | cons x xs ih =>
+    by_cases hx : x = c
+    · exact ⟨[], xs, by simp [hx], by simp⟩
+    · have : c ∈ xs := by
+        rcases List.mem_cons.1 h with e | e
+        · exact absurd e.symm hx
+        · exact e
+      obtain ⟨l1, l2, e, hn⟩ := ih this
+      refine ⟨x :: l1, l2, by simp [e], ?_⟩
+      intro hm
+      rcases List.mem_cons.1 hm with e' | e'
+      · exact hx e'.symm
+      · exact hn e'
+
+/-- joining the pieces with the separator gives the text back -/
+theorem join_split (L : List Char) : " ".intercalate ((splitChars ' ' L).map String.ofList) = String.ofList L := by
+  induction L with
+  | nil => simp [splitChars, String.intercalate_singleton]
+  | cons x xs ih =>
+    apply String.toList_inj.1
+    by_cases hx : x = ' '
+    · have hne : (splitChars ' ' xs).map String.ofList ≠ [] := by
+        simp [splitChars_ne_nil]
+      simp only [splitChars, hx, if_true, List.map]
+      rw [String.intercalate_cons_of_ne_nil hne, ih]
+      simp [String.toList_append, String.toList_ofList]
+    · simp only [splitChars, hx, if_false]
+      cases hs : splitChars ' ' xs with
+      | nil => exact absurd hs (splitChars_ne_nil _ _)
+      | cons h tl =>
+        rw [hs] at ih
+        simp only [List.map] at ih ⊢
+        cases tl with
+        | nil =>
+          simp only [List.map, String.intercalate_singleton] at ih ⊢
+          have := congrArg String.toList ih
+          simp only [String.toList_ofList] at this ⊢
+          rw [this]
+        | cons y ys =>
+          have hne : (y :: ys).map String.ofList ≠ [] := by simp
+          rw [String.intercalate_cons_of_ne_nil hne] at ih ⊢
+          have := congrArg String.toList ih
+          simp only [String.toList_append, String.toList_ofList] at this ⊢
+          rw [← this]
+          simp
+
+/-- a value text whose asset is not valid or whose amount is negative is refused by the monetary parser -/
+theorem parse_monVal_none {p : Posting} (h : ¬ (validAsset p.asset = true ∧ 0 ≤ p.amt)) :
+    parseValue .monetary (monVal p) = none := by
+  have hl : (monVal p).toList = p.asset.toList ++ ' ' :: (toString p.amt).toList := by
+    unfold monVal
+    simp only [String.toList_append, List.append_assoc]
+    rfl
+  by_cases hs : ' ' ∈ p.asset.toList
+  · obtain ⟨l1, l2, e, hn⟩ := exists_first_split hs
+    have hsp : splitOnC (monVal p) ' ' =
+        String.ofList l1 :: (splitChars ' ' (l2 ++ ' ' :: (toString p.amt).toList)).map String.ofList := by
+      unfold splitOnC
+      rw [hl, e, List.append_assoc, List.cons_append, splitChars_append _ hn]
+      rfl
+    have hjoin := join_split (l2 ++ ' ' :: (toString p.amt).toList)
+    have hnone : parseInt10 (String.ofList (l2 ++ ' ' :: (toString p.amt).toList)) = none :=
+      parseInt10_none_of_space (by rw [String.toList_ofList]; simp)
+    unfold parseValue
+    simp only [hsp]
+    cases hrest : (splitChars ' ' (l2 ++ ' ' :: (toString p.amt).toList)).map String.ofList with
+    | nil => rfl
+    | cons y ys =>
+      rw [hrest] at hjoin
+      simp only [hjoin, hnone]
+  · have hsp : splitOnC (monVal p) ' ' = [p.asset, toString p.amt] := by
+      unfold splitOnC
+      rw [hl, splitChars_append _ hs, splitChars_of_not_mem (space_not_mem_int _)]
+      simp only [List.map, String.ofList_toList]
+    unfold parseValue
+    simp only [hsp, String.intercalate_singleton, parseInt10_toString]
+    have : (validAsset p.asset && decide (p.amt ≥ 0)) = false := by
+      cases hv : validAsset p.asset with
+      | false => rfl
+      | true =>
+        have : ¬ 0 ≤ p.amt := fun h2 => h ⟨hv, h2⟩
+        simp [this]
+    simp [this]
 
 end Tx
 end Num
